@@ -42,6 +42,7 @@ EXEC = ["x = 1", "call s", "call s(a, b)", "continue", "print *, i", "return", "
         "open(file='x')", "open(unit=10, file='x')", "open(10, file='x', status='old')", "open(10)", "open(10, file='a', access='stream')",
         "close(10)", "read(10, *) x", "write(*, '(a)') 'hi'", "allocate(a(10))", "allocate(a(n), stat=ierr)", "allocate(x, source=y)",
         "deallocate(a)", "nullify(p)", "p => q", "x = sin(y) + max(a, b)", "where (a > 0) b = 1", "forall (i=1:n) a(i) = 0", "y(i) = f(z)",
+        "if (a > 0) x = 1", "if (l) call s(a)", "if (x) 10, 20, 30", "write(*, *) a", "read *, a", "assign 10 to k", "pause",
         "a = [1, 2, 3]", "s = 'a' // 'b'", "l = .not. (a .and. b)", "x = 1.0e-3 ** 2", "inquire(unit=10, exist=l)", "rewind 10", "wait(10)"]
 SPEC = ["integer :: a", "integer, parameter :: n = 1", "real(kind=8), dimension(:), allocatable :: x", "character(len=10) :: s",
         "type(t) :: v", "real, pointer :: p => null()", "logical, save :: flag", "integer a, b", "integer :: a(10)", "real :: x = 1.0",
@@ -165,6 +166,18 @@ def main(argv):
                 missing = [x for x in a3 if x not in a8]
                 if missing:
                     divergent.add(n8)      # renamed / generalised constituents: decided behaviourally below
+                    added = [x for x in a8 if x not in a3]
+                    if len(missing) == 1 and len(added) == 1:
+                        # a constituent replaced one-for-one (Action_Stmt_C824 -> Action_Stmt_C816, ...): every alternative the
+                        # 2003 constituent offers must be offered by its 2008 replacement (by rule name)
+                        old_alts = [x for x in (getattr(getattr(Fortran2003, missing[0], None), "subclass_names", []) or [])]
+                        new_cls = getattr(Fortran2008, added[0], None) or getattr(Fortran2003, added[0], None)
+                        new_alts = list(getattr(new_cls, "subclass_names", []) or [])
+                        lost = [x for x in old_alts if x not in new_alts]
+                        cases += 1
+                        if lost:
+                            failures.append(dict(obligation="two.Fortran2008#replaced_constituent_keeps_the_2003_alternatives",
+                                                 witness=dict(rule=n8, f2003=missing[0], f2008=added[0]), observed=dict(lost_alternatives=lost)))
         # 2008-only classes are not registered under f2003
         only08 = [n for n, c in inspect.getmembers(Fortran2008, inspect.isclass)
                   if c.__module__.startswith("fparser.two.Fortran2008") and not hasattr(Fortran2003, n)]
